@@ -711,7 +711,7 @@ func rt_17(c *core.Ctx, p *core.Prog) {
 
 func init() {
 	for _, prop := range []string{"C01", "C02", "C03", "C08"} {
-		register(prop, &core.Rule{ID: "RT.2", Title: "row discipline: every column builder receives the same number of slots on every feasible path of a row", Mod: core.ModRoot, Floor: 40, Run: rt_2, Canary: rt2Canary})
+		register(prop, &core.Rule{ID: "RT.2", Title: "row discipline: every column builder receives the same number of slots on every feasible path of a row", Mod: core.ModRoot, Floor: 40, FloorBy: map[string]int{"C01": 16, "C02": 18, "C03": 25}, Run: rt_2, Canary: rt2Canary})
 		register(prop, &core.Rule{ID: "RT.17", Title: "attribute values stored in the accumulators are never empty (the record builder's value switch has no empty arm)", Mod: core.ModRoot, Floor: 2, Run: rt_17})
 	}
 }
